@@ -938,8 +938,11 @@ class Run:
             if catch == 'cancel':
                 if not isinstance(exc, asyncio.CancelledError):
                     raise
-                task = asyncio.current_task()
-                if task is not None:
+                try:
+                    task = asyncio.current_task()
+                except RuntimeError:  # a to_thread body: no loop in this thread
+                    task = None
+                if task is not None and task.cancelling() > 0:
                     task.uncancel()
                 self.probe('cancel_caught_and_uncancelled')
             elif isinstance(exc, asyncio.CancelledError):
